@@ -76,6 +76,12 @@ pub enum Ex {
     Bin(char, Box<Ex>, Box<Ex>),
     Tern(Box<Ex>, Box<Ex>, Box<Ex>),
     Cat(Box<Ex>, Box<Ex>),
+    /// module-level `const K<w>: logic<w>` (no clock domain)
+    P(usize),
+    /// `case sel { 2'd0: a, 2'd1: b, default: d }`
+    CaseX(Box<Ex>, Box<Ex>, Box<Ex>, Box<Ex>),
+    /// `switch { c: a, default: b }`
+    SwitchX(Box<Ex>, Box<Ex>, Box<Ex>),
 }
 
 #[derive(Clone, Debug)]
@@ -99,6 +105,8 @@ pub enum IK {
     Comb { lhs: Lhs, dflt: Ex, cond: Option<(Ex, Ex)> },
     /// `case sel { 2'd0: lhs = a; default: lhs = b; }`
     CombCase { lhs: Lhs, sel: Ex, a: Ex, b: Ex },
+    /// `if c { lhs = a; } else { lhs = b; }`
+    CombIf { lhs: Lhs, c: Ex, a: Ex, b: Ex },
     Ff { clk: Dom, rst: Option<Dom>, lhs: Lhs, cond: Option<Ex>, rhs: Ex },
     Inst { child: usize, ins: Vec<Ex>, outs: Vec<Lhs> },
 }
@@ -204,12 +212,21 @@ impl Design {
             Ex::Not(a) => format!("~{}", self.atom(a)),
             Ex::Bin(op, a, b) => format!("{} {op} {}", self.atom(a), self.atom(b)),
             Ex::Tern(c, a, b) => format!("if {} ? {} : {}", self.atom(c), self.atom(a), self.atom(b)),
+            Ex::P(w) => format!("K{w}"),
+            Ex::CaseX(sel, a, b, d) => format!(
+                "case {} {{ 2'd0: {}, 2'd1: {}, default: {} }}",
+                self.atom(sel),
+                self.atom(a),
+                self.atom(b),
+                self.atom(d)
+            ),
+            Ex::SwitchX(c, a, b) => format!("switch {{ {}: {}, default: {} }}", self.atom(c), self.atom(a), self.atom(b)),
             Ex::Cat(a, b) => format!("{{{}, {}}}", self.ex_text(a), self.ex_text(b)),
         }
     }
     fn atom(&self, e: &Ex) -> String {
         match e {
-            Ex::Bin(..) | Ex::Tern(..) => format!("({})", self.ex_text(e)),
+            Ex::Bin(..) | Ex::Tern(..) | Ex::CaseX(..) | Ex::SwitchX(..) => format!("({})", self.ex_text(e)),
             _ => self.ex_text(e),
         }
     }
@@ -306,6 +323,9 @@ impl Design {
             }
         }
         let _ = writeln!(o, ") {{");
+        let _ = writeln!(o, "    const K1: logic = 1'b1;");
+        let _ = writeln!(o, "    const K2: logic<2> = 2'd2;");
+        let _ = writeln!(o, "    const K4: logic<4> = 4'd9;");
         for (id, s) in self.sigs.iter().enumerate() {
             if s.class == Class::Var {
                 let _ = writeln!(o, "    var {}: {}{};", s.name, self.ann(id, mode), ty(s.w));
@@ -356,6 +376,15 @@ impl Design {
                     let _ = writeln!(o, "{pad}    case {} {{", self.ex_text(sel));
                     let _ = writeln!(o, "{pad}        2'd0: {} = {};", self.lhs_text(lhs), self.ex_text(a));
                     let _ = writeln!(o, "{pad}        default: {} = {};", self.lhs_text(lhs), self.ex_text(b));
+                    let _ = writeln!(o, "{pad}    }}");
+                    let _ = writeln!(o, "{pad}}}");
+                }
+                IK::CombIf { lhs, c, a, b } => {
+                    let _ = writeln!(o, "{pad}always_comb {{");
+                    let _ = writeln!(o, "{pad}    if {} {{", self.ex_text(c));
+                    let _ = writeln!(o, "{pad}        {} = {};", self.lhs_text(lhs), self.ex_text(a));
+                    let _ = writeln!(o, "{pad}    }} else {{");
+                    let _ = writeln!(o, "{pad}        {} = {};", self.lhs_text(lhs), self.ex_text(b));
                     let _ = writeln!(o, "{pad}    }}");
                     let _ = writeln!(o, "{pad}}}");
                 }
@@ -437,10 +466,17 @@ impl Design {
                 self.ex_doms(a, out);
                 self.ex_doms(b, out);
             }
-            Ex::Tern(c, a, b) => {
+            Ex::Tern(c, a, b) | Ex::SwitchX(c, a, b) => {
                 self.ex_doms(c, out);
                 self.ex_doms(a, out);
                 self.ex_doms(b, out);
+            }
+            Ex::P(_) => {}
+            Ex::CaseX(s, a, b, d) => {
+                self.ex_doms(s, out);
+                self.ex_doms(a, out);
+                self.ex_doms(b, out);
+                self.ex_doms(d, out);
             }
         }
     }
@@ -487,9 +523,9 @@ impl Design {
                     self.ex_doms(t, &mut s);
                 }
             }
-            IK::CombCase { lhs, sel, a, b } => {
+            IK::CombCase { lhs, sel: c, a, b } | IK::CombIf { lhs, c, a, b } => {
                 self.lhs_doms(lhs, &mut s);
-                self.ex_doms(sel, &mut s);
+                self.ex_doms(c, &mut s);
                 self.ex_doms(a, &mut s);
                 self.ex_doms(b, &mut s);
             }
@@ -585,7 +621,11 @@ impl Design {
             }
         };
         match &it.kind {
-            IK::Assign { lhs, .. } | IK::Comb { lhs, .. } | IK::CombCase { lhs, .. } | IK::Ff { lhs, .. } => add(lhs),
+            IK::Assign { lhs, .. }
+            | IK::Comb { lhs, .. }
+            | IK::CombCase { lhs, .. }
+            | IK::CombIf { lhs, .. }
+            | IK::Ff { lhs, .. } => add(lhs),
             IK::Inst { outs, .. } => outs.iter().for_each(add),
         }
         v
@@ -604,10 +644,17 @@ impl Design {
                 self.ex_sigs(a, out);
                 self.ex_sigs(b, out);
             }
-            Ex::Tern(c, a, b) => {
+            Ex::Tern(c, a, b) | Ex::SwitchX(c, a, b) => {
                 self.ex_sigs(c, out);
                 self.ex_sigs(a, out);
                 self.ex_sigs(b, out);
+            }
+            Ex::P(_) => {}
+            Ex::CaseX(s, a, b, d) => {
+                self.ex_sigs(s, out);
+                self.ex_sigs(a, out);
+                self.ex_sigs(b, out);
+                self.ex_sigs(d, out);
             }
         }
     }
@@ -633,9 +680,9 @@ impl Design {
                     self.ex_sigs(t, &mut v);
                 }
             }
-            IK::CombCase { lhs, sel, a, b } => {
+            IK::CombCase { lhs, sel: c, a, b } | IK::CombIf { lhs, c, a, b } => {
                 lsel(lhs, &mut v);
-                self.ex_sigs(sel, &mut v);
+                self.ex_sigs(c, &mut v);
                 self.ex_sigs(a, &mut v);
                 self.ex_sigs(b, &mut v);
             }
@@ -665,7 +712,7 @@ impl Design {
                 self.ex_sigs(dflt, &mut v);
                 let _ = cond;
             }
-            IK::CombCase { a, .. } => self.ex_sigs(a, &mut v),
+            IK::CombCase { a, .. } | IK::CombIf { a, .. } => self.ex_sigs(a, &mut v),
             IK::Ff { .. } => return true, // inferred from the clock
             IK::Inst { .. } => return false,
         }
